@@ -22,8 +22,8 @@ VARIANTS = [
     {"name": "R1 numpy encoder casts without rint", "file": SER, "expect": "C10.R1",
      "old": "        return np.rint(val).astype(self.dtype)\n", "new": "        return val.astype(self.dtype)\n"},
     {"name": "R1 fixed point encoder truncates", "file": SER, "expect": "C10.R1",
-     "old": "return self._ser_spec.serialize(round(val), writer, ctx)",
-     "new": "return self._ser_spec.serialize(int(val), writer, ctx)"},
+     "old": "return self._ser_spec.serialize(min(round(val), self._ser_spec.max_val), writer, ctx)",
+     "new": "return self._ser_spec.serialize(min(int(val), self._ser_spec.max_val), writer, ctx)"},
     {"name": "R1 fixed point decoder scales by frac_bits instead of 2^frac_bits", "file": SER, "expect": "C10.R1",
      "old": "        fixed_val /= (1 << self._frac_bits)\n", "new": "        fixed_val /= self._frac_bits\n"},
     {"name": "R1 QuantizedFloat.encode swaps the range", "file": SER, "expect": "C10.R1",
@@ -263,4 +263,48 @@ VARIANTS = [
             '\n'
             '    def data(self, wanted_components=None):\n'
             '        return self.X, self.Y, self.Z\n'},
+
+    # audit round: saturation at the primitive's range (D51), zero-width domains (D52)
+    {'name': 'R3 D51 re-introduced: FixedPoint hands the unsaturated integer to the primitive',
+     'file': 'hippolyzer/lib/base/serialization.py',
+     'expect': 'C10.R3',
+     'old': '        return self._ser_spec.serialize(min(round(val), self._ser_spec.max_val), writer, ctx)\n',
+     'new': '        return self._ser_spec.serialize(round(val), writer, ctx)\n'},
+    {'name': 'R1 FixedPoint clamps the rounded integer to a magic number',
+     'file': 'hippolyzer/lib/base/serialization.py',
+     'expect': 'C10.R1',
+     'old': '        return self._ser_spec.serialize(min(round(val), self._ser_spec.max_val), writer, ctx)\n',
+     'new': '        return self._ser_spec.serialize(min(round(val), 0xFF00), writer, ctx)\n'},
+    {'name': 'P R3 FixedPoint saturation as its own statement',
+     'file': 'hippolyzer/lib/base/serialization.py',
+     'expect': 'silent',
+     'old': '        return self._ser_spec.serialize(min(round(val), self._ser_spec.max_val), writer, ctx)\n',
+     'new': '        raw = round(val)\n'
+            '        raw = min(raw, self._ser_spec.max_val)\n'
+            '        return self._ser_spec.serialize(raw, writer, ctx)\n'},
+    {'name': 'P R3 FixedPoint saturation at both ends of the primitive',
+     'file': 'hippolyzer/lib/base/serialization.py',
+     'expect': 'silent',
+     'old': '        return self._ser_spec.serialize(min(round(val), self._ser_spec.max_val), writer, ctx)\n',
+     'new': '        return self._ser_spec.serialize(max(min(round(val), self._ser_spec.max_val), '
+            'self._ser_spec.min_val), writer, ctx)\n'},
+    {'name': 'R6 D52 re-introduced: within_domain divides by a zero-width axis',
+     'file': 'hippolyzer/lib/base/datatypes.py',
+     'expect': 'C10.R6',
+     'old': '            *(((t - l) / (u - l)) if u != l else 0.0 for l, u, t in zip(lower, upper, self))\n',
+     'new': '            *(((t - l) / (u - l)) for l, u, t in zip(lower, upper, self))\n'},
+    {'name': 'P R6 zero-width guard written on the width itself',
+     'file': 'hippolyzer/lib/base/datatypes.py',
+     'expect': 'silent',
+     'old': '            *(((t - l) / (u - l)) if u != l else 0.0 for l, u, t in zip(lower, upper, self))\n',
+     'new': '            *(((t - l) / (u - l)) if (u - l) != 0 else 0.0 for l, u, t in zip(lower, upper, self))\n'},
+    {'name': 'R6 quantiser loses its degenerate-range guard',
+     'file': 'hippolyzer/lib/base/serialization.py',
+     'expect': 'C10.R6',
+     'old': '        delta = upper - lower\n'
+            '        if delta == 0.0:\n'
+            '            return self.prim_min\n'
+            '\n'
+            '        val = min(max(val, lower), upper)\n',
+     'new': '        delta = upper - lower\n\n        val = min(max(val, lower), upper)\n'},
 ]
